@@ -451,12 +451,12 @@ Proof.
     destruct (ms_consistence n2 lost) as [[[n3 o3] d3]|k] eqn:E3; [|discriminate]. apply ms_consistence_FR in E3.
     destruct d3; [inversion H; subst; repeat fr_step|].
     destruct (is_master n3) eqn:M; inversion H; subst; repeat fr_step.
-    apply FR_by_master; [exact M|destruct lostp; reflexivity].
+    apply FR_by_master; [exact M|destruct (starter_filter lost lostp orc); reflexivity].
   - (* OPERATION *)
     destruct (ms_consistence n2 lost) as [[[n3 o3] d3]|k] eqn:E3; [|discriminate]. apply ms_consistence_FR in E3.
     destruct d3; [inversion H; subst; repeat fr_step|].
     destruct (is_master n3) eqn:M; inversion H; subst; repeat fr_step.
-    apply FR_by_master; [exact M|destruct lostp; reflexivity].
+    apply FR_by_master; [exact M|destruct (starter_filter lost lostp orc); reflexivity].
   - (* CONCILIATION *)
     destruct (ms_consistence n2 lost) as [[[n3 o3] d3]|k] eqn:E3; [|discriminate]. apply ms_consistence_FR in E3.
     destruct d3; [inversion H; subst; repeat fr_step|].
@@ -464,9 +464,9 @@ Proof.
     assert (BM : forall l, forallb (fun o => negb (is_publish o) && negb (is_final_order o)) l = true -> FR n3 l n3)
       by (intros l Hl; apply FR_by_master; [exact M|exact Hl]).
     destruct (or_starting orc || or_stopping orc);
-      [inversion H; subst; repeat fr_step; try (apply BM; destruct lostp; reflexivity)|].
+      [inversion H; subst; repeat fr_step; try (apply BM; destruct (starter_filter lost lostp orc); reflexivity)|].
     destruct (negb (or_conflict orc)); inversion H; subst; repeat fr_step;
-      try (apply BM; destruct lostp; reflexivity).
+      try (apply BM; destruct (starter_filter lost lostp orc); reflexivity).
   - (* RESTARTING *)
     destruct (ms_consistence n2 lost) as [[[n3 o3] d3]|k] eqn:E3; [|discriminate]. apply ms_consistence_FR in E3.
     destruct d3; [inversion H; subst; repeat fr_step|].
@@ -3943,3 +3943,253 @@ Definition shut_hist : list event :=
 Example ex_one_final_order :
   obs_states (run op_node shut_hist) = [7; 7; 8; 8; 8] /\ run_orders (run op_node shut_hist) = 1%nat.
 Proof. vm_compute. split; reflexivity. Qed.
+
+(* ====================================================================== *)
+(* The in-place filtering contract of the lost processes (C06, node level) *)
+(* ====================================================================== *)
+Definition is_failure_job (o : output) : bool := match o with FailureJob => true | _ => false end.
+Definition nofj (l : list output) : bool := forallb (fun o => negb (is_failure_job o)) l.
+
+Lemma nofj_app : forall a b, nofj (a ++ b) = nofj a && nofj b.
+Proof. intros. unfold nofj. apply forallb_app. Qed.
+
+Lemma nofj_In : forall l, nofj l = true -> ~ In FailureJob l.
+Proof. intros l H I. unfold nofj in H. rewrite forallb_forall in H. apply H in I. discriminate I. Qed.
+
+Ltac nofj_tac :=
+  rewrite ?nofj_app;
+  repeat match goal with H : nofj ?o = true |- context[nofj ?o] => rewrite H end;
+  simpl; try reflexivity.
+
+Lemma starter_filter_busy : forall lost lostp orc,
+  (lostp = true -> lost <> []) -> or_starting orc = true -> starter_filter lost lostp orc = false.
+Proof.
+  intros lost lostp orc Hl Hb. unfold starter_filter. destruct lost as [|j r].
+  - destruct lostp; [exfalso; apply Hl; reflexivity|reflexivity].
+  - rewrite Hb. destruct lostp; reflexivity.
+Qed.
+
+Lemma starter_filter_idle : forall lost lostp orc,
+  or_starting orc = false -> starter_filter lost lostp orc = lostp.
+Proof. intros lost lostp orc Hb. unfold starter_filter. rewrite Hb. destruct lost, lostp; reflexivity. Qed.
+
+Lemma set_master_nofj : forall n m n' o, set_master n m = (n', o) -> nofj o = true.
+Proof. intros n m n' o H. unfold set_master in H. destruct (Z.eqb (master n) m); inversion H; subst; reflexivity. Qed.
+
+Lemma set_degraded_nofj : forall n b n' o, set_degraded n b = (n', o) -> nofj o = true.
+Proof.
+  intros n b n' o H. unfold set_degraded in H. destruct (Bool.eqb (sm_degraded (own n)) b); inversion H; subst; reflexivity.
+Qed.
+
+Lemma update_instance_state_nofj : forall n j st n' o, update_instance_state n j st = (n', o) -> nofj o = true.
+Proof.
+  intros n j st n' o H. unfold update_instance_state in H.
+  match type of H with (if ?c then _ else _) = _ => destruct c end.
+  - eapply set_master_nofj; eassumption.
+  - inversion H; subst; reflexivity.
+Qed.
+
+Lemma set_inst_state_nofj : forall n j st now n' o, set_inst_state n j st now = Ok (n', o) -> nofj o = true.
+Proof.
+  intros n j st now n' o H. unfold set_inst_state in H.
+  destruct (aget j (n_insts n)) as [s|]; [|discriminate].
+  destruct (istate_eqb (is_state s) st); [inversion H; subst; reflexivity|].
+  destruct (inst_transition_ok (is_state s) st); [|discriminate].
+  inversion H as [H1]. eapply update_instance_state_nofj; eassumption.
+Qed.
+
+Lemma invalidate_nofj : forall n j fence now n' o, invalidate n j fence now = Ok (n', o) -> nofj o = true.
+Proof.
+  intros n j fence now n' o H. unfold invalidate in H.
+  destruct (Z.eqb j (n_me n)); [eapply set_inst_state_nofj; eassumption|].
+  destruct (fence || _); eapply set_inst_state_nofj; eassumption.
+Qed.
+
+(* lost processes come with lost instances *)
+Lemma invalidate_failed_aux_nofj : forall ids n acc lost lostp now n' outs lost' lostp',
+  invalidate_failed_aux ids n acc lost lostp now = Ok (n', outs, lost', lostp') ->
+  (nofj acc = true -> nofj outs = true) /\ ((lostp = true -> lost <> []) -> lostp' = true -> lost' <> []).
+Proof.
+  induction ids as [|j r IH]; simpl; intros n acc lost lostp now n' outs lost' lostp' H.
+  - inversion H; subst. split; auto.
+  - destruct (inst_state n j) as [[]|]; try (eapply IH; eassumption).
+    destruct (invalidate n j false now) as [[n1 o1]|k] eqn:E; [|discriminate].
+    apply invalidate_nofj in E. apply IH in H. destruct H as [H1 H2]. split.
+    + intro A. apply H1. nofj_tac; try exact A.
+    + intros _. apply H2. intros _. destruct lost; discriminate.
+Qed.
+
+Lemma activate_checked_aux_nofj : forall ids n acc act now n' outs act',
+  activate_checked_aux ids n acc act now = Ok (n', outs, act') -> nofj acc = true -> nofj outs = true.
+Proof.
+  induction ids as [|j r IH]; simpl; intros n acc act now n' outs act' H A.
+  - inversion H; subst. exact A.
+  - destruct (inst_state n j) as [[]|]; try (eapply IH; eassumption).
+    destruct (set_inst_state n j IRUNNING now) as [[n1 o1]|k] eqn:E; [|discriminate].
+    apply set_inst_state_nofj in E. eapply IH; [eassumption|]. nofj_tac; try exact A.
+Qed.
+
+Lemma check_instances_nofj : forall n now n' o lost lostp d,
+  check_instances n now = Ok (n', o, lost, lostp, d) -> nofj o = true /\ (lostp = true -> lost <> []).
+Proof.
+  intros n now n' o lost lostp d H. unfold check_instances, invalidate_failed in H.
+  destruct (invalidate_failed_aux _ n [] [] false now) as [[[[n1 o1] l1] p1]|k] eqn:E1; [|discriminate].
+  apply invalidate_failed_aux_nofj in E1. destruct E1 as [A1 B1].
+  specialize (A1 eq_refl). assert (B : p1 = true -> l1 <> []) by (apply B1; discriminate).
+  destruct (act_of (fsm_state n)).
+  - unfold activate_checked in H.
+    destruct (activate_checked_aux _ n1 [] [] now) as [[[n2 o2] act]|k] eqn:E2; [|discriminate].
+    apply activate_checked_aux_nofj in E2; [|reflexivity]. inversion H; subst. split; [nofj_tac|exact B].
+  - unfold activate_checked in H.
+    destruct (activate_checked_aux _ n1 [] [] now) as [[[n2 o2] act]|k] eqn:E2; [|discriminate].
+    apply activate_checked_aux_nofj in E2; [|reflexivity]. inversion H; subst. split; [nofj_tac|exact B].
+  - inversion H; subst. split; [exact A1|exact B].
+Qed.
+
+Lemma check_failure_strategy_nofj : forall n lost n' o d, check_failure_strategy n lost = (n', o, d) -> nofj o = true.
+Proof.
+  intros n lost n' o d H. unfold check_failure_strategy in H.
+  match type of H with (let '(_, _) := ?u in _) = _ => destruct u as [n1 o1] eqn:E end.
+  apply set_degraded_nofj in E. inversion H; subst. exact E.
+Qed.
+
+Lemma sync_consistence_nofj : forall n lost n' o d, sync_consistence n lost = (n', o, d) -> nofj o = true.
+Proof.
+  intros n lost n' o d H. unfold sync_consistence in H. destruct (on_consistence n).
+  - inversion H; subst. reflexivity.
+  - eapply check_failure_strategy_nofj; eassumption.
+Qed.
+
+Lemma ms_consistence_nofj : forall n lost n' o d, ms_consistence n lost = Ok (n', o, d) -> nofj o = true.
+Proof.
+  intros n lost n' o d H. unfold ms_consistence in H.
+  destruct (sync_consistence n lost) as [[n1 o1] d1] eqn:E. apply sync_consistence_nofj in E.
+  destruct d1; [inversion H; subst; exact E|].
+  destruct (check_master n1) as [ok|k]; [|discriminate]. simpl in H. inversion H; subst. exact E.
+Qed.
+
+Lemma accept_master_nofj : forall n pick n' o, accept_master n pick = Ok (n', o) -> nofj o = true.
+Proof.
+  intros n pick n' o H. unfold accept_master in H.
+  destruct (master_identifiers n) as [ms|k]; [|discriminate]. simpl in H.
+  destruct (zdiscard 0 ms) as [|m [|m2 r]]; inversion H as [H1];
+    first [reflexivity | eapply set_master_nofj; eassumption].
+Qed.
+
+Lemma select_master_nofj : forall n n' o, select_master n = Ok (n', o) -> nofj o = true.
+Proof.
+  intros n n' o H. unfold select_master in H.
+  destruct (master_identifiers n) as [ms|k]; [|discriminate]. simpl in H.
+  match type of H with bind ?u _ = _ => destruct u as [[[m rk]|]|k] end; simpl in H; try discriminate.
+  inversion H as [H1]. eapply set_master_nofj; eassumption.
+Qed.
+
+(* C06, node level: an evaluation of instance.next() made while the Starter is busy never feeds the failure handler.
+   The instances acknowledged lost at that evaluation are notified to the Starter (JobsInvalidation), which takes the
+   processes lost with them out of the set that _master_next reads (starter_filter) *)
+Theorem fsm_next_starter_busy_no_failure_job : forall n orc now n' o d,
+  fsm_next n orc now = Ok (n', o, d) -> or_starting orc = true -> nofj o = true.
+Proof.
+  intros n orc now n' o d H Hb. unfold fsm_next in H.
+  destruct (check_instances n now) as [[[[[n1 o1] lost] lostp] d1]|k] eqn:E1; [|discriminate].
+  apply check_instances_nofj in E1. destruct E1 as [A1 B1].
+  destruct d1 as [d1|]; [inversion H; subst; exact A1|].
+  destruct (evaluate_stability n1) as [n2|k] eqn:E2; [|discriminate].
+  rewrite (starter_filter_busy lost lostp orc B1 Hb) in H.
+  set (oc := match lost with [] => [] | _ => [JobsInvalidation lost] end) in *.
+  assert (Hoc : nofj oc = true) by (unfold oc; destruct lost; reflexivity).
+  clearbody oc.
+  destruct (fsm_state n) eqn:Est.
+  - inversion H; subst. nofj_tac.
+  - (* SYNCHRONIZATION *)
+    destruct (on_consistence n2); [inversion H; subst; nofj_tac|].
+    match type of H with match ?u with _ => _ end = _ => destruct u as [[[n3 o3] us]|k] eqn:E3; [|discriminate] end.
+    assert (F3 : nofj o3 = true).
+    { destruct (o_user (n_opts n2)).
+      - destruct (accept_master n2 (or_pick orc)) as [[n3' o3']|k] eqn:E4; [|discriminate].
+        apply accept_master_nofj in E4.
+        destruct (master n3' =? 0); [inversion E3; subst; exact E4|].
+        destruct (inst_state n3' (master n3')); inversion E3; subst; exact E4.
+      - inversion E3; subst. reflexivity. }
+    match type of H with (let '(_, _) := ?u in _) = _ => destruct u as [n4 o4] eqn:E4 end.
+    apply set_degraded_nofj in E4. inversion H; subst. nofj_tac.
+  - (* ELECTION *)
+    destruct (sync_consistence n2 lost) as [[n3 o3] d3] eqn:E3. apply sync_consistence_nofj in E3.
+    destruct d3; [inversion H; subst; nofj_tac|].
+    assert (SM : forall r, select_master n3 = Ok r -> nofj (o1 ++ o3 ++ snd r) = true).
+    { intros [n4 o4] E4. apply select_master_nofj in E4. simpl. nofj_tac. }
+    destruct (is_stable n3); [|inversion H; subst; nofj_tac].
+    destruct (check_master n3) as [[|]|k]; [| |discriminate].
+    + destruct (is_master n3); [inversion H; subst; nofj_tac|].
+      destruct (master_state n3) as [[]|];
+        first [ destruct (select_master n3) as [r|k] eqn:E4; [|discriminate]; simpl in H; inversion H; subst;
+                apply SM; reflexivity
+              | inversion H; subst; nofj_tac ].
+    + destruct (select_master n3) as [r|k] eqn:E4; [|discriminate]; simpl in H; inversion H; subst.
+      apply SM; reflexivity.
+  - (* DISTRIBUTION *)
+    destruct (ms_consistence n2 lost) as [[[n3 o3] d3]|k] eqn:E3; [|discriminate]. apply ms_consistence_nofj in E3.
+    destruct d3; [inversion H; subst; nofj_tac|].
+    destruct (is_master n3); inversion H; subst; nofj_tac.
+  - (* OPERATION *)
+    destruct (ms_consistence n2 lost) as [[[n3 o3] d3]|k] eqn:E3; [|discriminate]. apply ms_consistence_nofj in E3.
+    destruct d3; [inversion H; subst; nofj_tac|].
+    destruct (is_master n3); inversion H; subst; nofj_tac.
+  - (* CONCILIATION *)
+    destruct (ms_consistence n2 lost) as [[[n3 o3] d3]|k] eqn:E3; [|discriminate]. apply ms_consistence_nofj in E3.
+    destruct d3; [inversion H; subst; nofj_tac|].
+    destruct (is_master n3); [|inversion H; subst; nofj_tac].
+    destruct (or_starting orc || or_stopping orc); [inversion H; subst; nofj_tac|].
+    destruct (negb (or_conflict orc)); inversion H; subst; nofj_tac.
+  - (* RESTARTING *)
+    destruct (ms_consistence n2 lost) as [[[n3 o3] d3]|k] eqn:E3; [|discriminate]. apply ms_consistence_nofj in E3.
+    destruct d3; [inversion H; subst; nofj_tac|].
+    destruct (is_master n3); inversion H; subst; nofj_tac.
+  - (* SHUTTING_DOWN *)
+    destruct (ms_consistence n2 lost) as [[[n3 o3] d3]|k] eqn:E3; [|discriminate]. apply ms_consistence_nofj in E3.
+    destruct d3; [inversion H; subst; nofj_tac|].
+    destruct (is_master n3); inversion H; subst; nofj_tac.
+  - (* FINAL *)
+    inversion H; subst. nofj_tac.
+Qed.
+
+(* ... and with an idle Starter nothing is filtered: the Master in a working state whose consistence checks decide nothing
+   feeds the failure handler as soon as a process is lost (the demand of c06_loss_walk) *)
+Theorem fsm_next_starter_idle_failure_job : forall n orc now n1 o1 lost n2 n3 o3 n' o d,
+  working (fsm_state n) ->
+  check_instances n now = Ok (n1, o1, lost, true, None) -> evaluate_stability n1 = Ok n2 ->
+  ms_consistence n2 lost = Ok (n3, o3, None) -> is_master n3 = true -> or_starting orc = false ->
+  fsm_next n orc now = Ok (n', o, d) -> In FailureJob o.
+Proof.
+  intros n orc now n1 o1 lost n2 n3 o3 n' o d W E1 E2 E3 M Hb H. unfold fsm_next in H.
+  rewrite E1, E2, E3, M, (starter_filter_idle lost true orc Hb) in H.
+  assert (G : forall a b c t, In FailureJob (a ++ b ++ c ++ [FailureJob] ++ t)).
+  { intros a b c t. apply in_or_app. right. apply in_or_app. right. apply in_or_app. right. left. reflexivity. }
+  destruct W as [W|[W|W]]; rewrite W in H.
+  - inversion H; subst. rewrite <- (app_nil_r [FailureJob]). apply G.
+  - inversion H; subst. rewrite <- (app_nil_r [FailureJob]). apply G.
+  - rewrite Hb in H. simpl in H.
+    destruct (or_stopping orc); [inversion H; subst; rewrite <- (app_nil_r [FailureJob]); apply G|].
+    destruct (negb (or_conflict orc)); inversion H; subst; [rewrite <- (app_nil_r [FailureJob])|]; apply G.
+Qed.
+
+(* the hypotheses are satisfiable: a Master in OPERATION acknowledging the loss of the only peer, which hosted a process *)
+Definition loss_node : node :=
+  mkNode 1 (ex_opts false FS_CONTINUE) [] [] [(1, 1); (2, 2)]
+         [(1, mkIst IRUNNING 2 2 10); (2, mkIst FAILED 1 1 0)]
+         [(1, mkSm OPERATION false 1 [(1, IRUNNING); (2, FAILED)]); (2, sm_fresh)] [1] false 0 [2].
+Definition orc_starting := mkOr true false false 0.
+
+Example ex_loss_idle_starter :
+  exists n', fsm_next loss_node orc0 20 = Ok (n', [JobsInvalidation [2]; FailureJob], Some OPERATION).
+Proof. vm_compute. eexists. reflexivity. Qed.
+
+Example ex_loss_busy_starter :
+  exists n', fsm_next loss_node orc_starting 20 = Ok (n', [JobsInvalidation [2]], Some OPERATION).
+Proof. vm_compute. eexists. reflexivity. Qed.
+
+Example ex_loss_idle_hyps :
+  exists n1 o1 lost n2 n3 o3,
+    working (fsm_state loss_node) /\ check_instances loss_node 20 = Ok (n1, o1, lost, true, None) /\
+    evaluate_stability n1 = Ok n2 /\ ms_consistence n2 lost = Ok (n3, o3, None) /\ is_master n3 = true.
+Proof. vm_compute. do 6 eexists. repeat split; try reflexivity. right. left. reflexivity. Qed.
